@@ -330,6 +330,19 @@ def write (z : Sess) : Sess :=
   | some s => { z with sub := some { s with pending := s.hasItem } }
   | none => z
 
+/-- ModifySubscription on the subscription, with the values already revised (C23):
+`set_publishing_interval` (resets the lifetime counter), `set_max_keep_alive_count`,
+`set_max_lifetime_count`, `set_priority`, `reset_lifetime_counter`, `reset_keep_alive_counter` -/
+def modifySub (s : Subn) (ka life : Nat) : Subn :=
+  { s with maxKa := ka, maxLife := life, life := life, ka := ka }
+
+/-- SetPublishingMode: `set_publishing_enabled` (+ `reset_lifetime_counter`) -/
+def setEnabled (s : Subn) (b : Bool) : Subn := { s with enabled := b, life := s.maxLife }
+
+/-- any other service call that names the subscription (create / modify / delete monitored items,
+republish): `reset_lifetime_counter` -/
+def touch (s : Subn) : Subn := resetLife s
+
 /-- the current source -/
 def updateState := updateStateWith current
 def subTick := subTickWith current
